@@ -5,7 +5,8 @@ proof          : coq/theories/Props/C03.v (model Model/Tri.v): index consistency
                  new vertex, vertices appended once -- for ALL outcomes of the geometric predicates
 correspondence : the real Triangulation (dims 2-4) is driven on lattice points, centroids, edge
                  midpoints, co-circular sets, exterior points, duplicates, right / wrong / empty
-                 hints, transform diag(1, r); every predicate outcome is recorded by wrapping the
+                 hints, transform diag(1, r), and from initial point sets whose first dim+1 points are
+                 affinely dependent with exterior points facing that facet; every predicate outcome is recorded by wrapping the
                  methods from this process; the Coq model replays the insertions with the recorded
                  answers and compares simplices, vertex_to_simplices, hull, (deleted, added) and the
                  ValueErrors inside Coq (vm_compute).  The recorded predicate answers are tied to
@@ -13,12 +14,16 @@ correspondence : the real Triangulation (dims 2-4) is driven on lattice points, 
                  margin are discarded and counted).
 search/oracle  : exact `fractions.Fraction` oracle of the property text on the real object
                  (the geometric half, which the proof does not reach -- level "partial").
+                 An insertion refused as 'Candidate vertex is inside the hull' is compared with the
+                 exact convex hull of the points (clause exterior_point_rejected); a hull-extension
+                 reference point lying in a facet hyperplane does not make a case "fragile".
 """
 from __future__ import annotations
 
 import itertools
 import json
 import math
+import re
 from fractions import Fraction as Fr
 
 import numpy as np
@@ -31,7 +36,8 @@ THEOREMS = {n: "Props.C03" for n in [
     "C03_index_consistent", "C03_report_exact", "C03_reject_unchanged",
     "C03_every_new_simplex_has_pt", "C03_vertices_appended_once",
     "C03_old_facets_stay_le2", "C03_first_overlap_at_new_vertex", "C03_simplices_sorted_nodup",
-    "C03_closed_cavity_keeps_hull_property"]}
+    "C03_closed_cavity_keeps_hull_property", "C03_link_manifold_keeps_hull_property",
+    "C03_hull_property_gives_link_manifold"]}
 
 PREAMBLE = """From Coq Require Import List. Import ListNotations.
 From AV Require Import Base.Prelude Model.Tri Run.TriRun.
@@ -84,6 +90,9 @@ F37 = ("F37 add_point of a duplicate of an existing vertex (hint None or a simpl
        "vertex) never sees the vertex: the point is a vertex twice")
 
 FRAGILE = {"circ": 1e-11, "orient": 1e-9, "flat": 1e-3, "reduce": 1e-11, "locate": 1e-11}
+# a point whose exact orientation margin against a hull facet hyperplane (|det| / product of the row norms) is at
+# least this is "robustly" on that side: 1000 x the threshold below which an orientation decision counts as fragile
+ROBUST_SIDE = 1e-6
 
 
 # ---------------------------------------------------------------------------
@@ -132,7 +141,85 @@ def initial_points0(rng, d, family):
         return sorted(pts)
     if family == "dyadic":         # general position with high probability
         return [tuple(rng.randint(0, 64) / 64.0 for _ in range(d)) for _ in range(d + 1)]
+    if family in FLAT_FIRST:
+        return flat_first_points(rng, d, family)
     raise ValueError(family)
+
+
+# Initial configurations of MORE than d+1 points whose FIRST d+1 points are affinely dependent: they all lie in one
+# hull facet hyperplane {x_a = min}.  (Triangulation(coords) accepts any number of points and only needs all of them to
+# span the space; nothing makes vertices[:d+1] a simplex.)
+#   boxprod   : corners of a box in itertools.product order (what LearnerND feeds in), d = 3, 4; co-spherical in
+#               every diagonal metric
+#   grid      : a full lattice grid in lexicographic order (2-D: >= 3 points per column; 3-D: 2 x 2 x 3); weakly
+#               Delaunay in every diagonal metric
+#   flatfirst : d+1 or d+2 lattice points spanning the hyperplane x_a = 0 first ("three collinear points first",
+#               "four coplanar points first"), then 1-3 lattice points with x_a > 0; Euclidean metric only
+# in each case with the axes permuted at random, so the flat is not always x_0 = min
+FLAT_FIRST = ("boxprod", "grid", "flatfirst")
+
+
+def flat_first_points(rng, d, family):
+    perm = list(range(d))
+    rng.shuffle(perm)
+
+    def permuted(pts):
+        return [tuple(float(p[perm[i]]) for i in range(d)) for p in pts]
+
+    if family == "boxprod":
+        ext = [float(rng.choice([1, 1, 2, 3])) for _ in range(d)]
+        return permuted(itertools.product(*[(0.0, e) for e in ext]))
+    if family == "grid":
+        counts = {2: rng.choice([(2, 3), (2, 4), (3, 3)]), 3: (2, 2, 3)}[d]
+        ext = [float(rng.choice([1, 1, 2])) for _ in range(d)]
+        return permuted(itertools.product(*[[e * j for j in range(c)] for e, c in zip(ext, counts)]))
+    # flatfirst: points of the hyperplane x_0 = 0 that span it, then points strictly on one side of it
+    while True:
+        base, nbase = set(), rng.choice([d + 1, d + 1, d + 2])
+        while len(base) < nbase:
+            base.add((0,) + tuple(rng.randint(0, 3) for _ in range(d - 1)))
+        base = sorted(base)
+        rng.shuffle(base)
+        proj = [X.fr_point(q[1:]) for q in base]
+        if d == 2:
+            spans = len(set(proj)) > 1
+        else:
+            spans = any(X.simplex_det(list(c)) != 0 for c in itertools.combinations(proj, d))
+        if spans:
+            break
+    tops, ntops = set(), rng.choice([1, 1, 2, 3])
+    while len(tops) < ntops:
+        tops.add((rng.randint(1, 3),) + tuple(rng.randint(0, 3) for _ in range(d - 1)))
+    return permuted(base + sorted(tops))
+
+
+def choose_facing(rng, tri, d):
+    """an exterior point beyond a face of the bounding box of the current vertices -- "facing": beyond the hyperplane
+    x_a = const that holds the first d+1 vertices; "beyond_face": beyond a random face.  The other coordinates lie
+    within the box (the point sees essentially that face only) or, "_oblique", in the box widened by 2 (it sees
+    several hull facets of different kinds)."""
+    V = [tuple(float(x) for x in v) for v in tri.vertices]
+    lo = [min(v[i] for v in V) for i in range(d)]
+    hi = [max(v[i] for v in V) for i in range(d)]
+    first = V[:d + 1]
+    flat_axes = [i for i in range(d) if all(v[i] == first[0][i] for v in first)]
+    if flat_axes and rng.random() < 0.65:
+        a = rng.choice(flat_axes)
+        side = -1 if first[0][a] - lo[a] <= hi[a] - first[0][a] else 1
+        kind = "facing"
+    else:
+        a, side, kind = rng.randrange(d), rng.choice([-1, 1]), "beyond_face"
+    t = rng.choice([0.5, 1.0, 2.0, 3.0])
+    oblique = rng.random() < 0.4
+    p = []
+    for i in range(d):
+        if i == a:
+            p.append((lo[a] if side < 0 else hi[a]) + side * t)
+        elif oblique:
+            p.append(lo[i] - 2.0 + rng.randint(0, 2 * int(hi[i] - lo[i] + 4)) / 2.0)
+        else:
+            p.append(lo[i] + (hi[i] - lo[i]) * rng.randint(1, 7) / 8.0)
+    return kind + ("_oblique" if oblique else ""), tuple(float(x) for x in p)
 
 
 CIRCLE5 = [(3, 4), (4, 3), (5, 0), (0, 5), (-3, 4), (-4, 3), (-5, 0), (0, -5), (3, -4), (4, -3), (-3, -4), (-4, -3), (0, 0)]
@@ -220,7 +307,7 @@ def choose_hint(rng, tri, p, kind=""):
 def transform_of(rng, d, family, quick):
     """identity, diag with axis ratio <= 100, and -- a metric need not normalise to the unit box -- the same
     multiplied by a small length scale (circumradii far below 1 in the metric)"""
-    if family in ("lattice",) or rng.random() < 0.35:
+    if family in ("lattice", "flatfirst") or rng.random() < 0.35:
         diag = None
     else:
         r = rng.choice([2.0, 4.0, 10.0, 100.0, 0.5, 0.01, 3.0])
@@ -264,6 +351,10 @@ class Oracle:
         self.tolerated = None     # (step, simplex): trigger of finding F32
         self.raw = []             # every clause that tripped, also the unreported ones: (clause, step)
         self.near_degenerate = False   # a 'gap' point (2e-8 outside a hull facet) was inserted
+        self.bad_reference = None      # (step, facet, reference point): see check_predicates
+        self.bad_reference_decisions = 0
+        self.inside_hull_judged = 0    # 'Candidate vertex is inside the hull' rejections compared with the exact hull
+        self.exterior_rejected = 0     # ... of a point that is robustly OUTSIDE the exact hull (reported or discarded)
 
     def err(self, clause, msg, step):
         self.raw.append((clause, step))
@@ -303,7 +394,14 @@ class Oracle:
             if self.near_degenerate and clause == "internal_error" and "ZeroDivisionError" in msg and self.d == 2:
                 self.errors.append((F35, f"{msg}; a point was inserted 2e-8 outside a hull facet earlier", step))
                 return
+            if self.bad_reference is not None:
+                msg += self._bad_reference_note()
         self.errors.append((clause, msg, step))
+
+    def _bad_reference_note(self):
+        st, face, center = self.bad_reference
+        return (f"; at step {st} _extend_hull decided the visibility of hull facet {face} against the reference point "
+                f"{tuple(center)}, which lies in the hyperplane of that facet (not strictly inside the hull)")
 
     def note_hanging(self, tri, a, step):
         """trigger of F31: a candidate simplex (cavity facet + new point) was suppressed as flat although the facet
@@ -341,6 +439,8 @@ class Oracle:
         """tie the recorded predicate outcomes to exact arithmetic with the code's tolerances"""
         P = [X.fr_point(p) for p in verts_after]
         pt = X.fr_point(a.point)
+        nb = min(a.nverts_before, len(P))
+        cstar = tuple(sum(q[i] for q in P[:nb]) / nb for i in range(self.d)) if nb and a.orient else None
         for pt_index, s, res in a.circ:
             if max(s) >= len(P) or pt_index >= len(P):
                 continue
@@ -364,6 +464,21 @@ class Oracle:
             fp = [P[i] for i in face]
             e1, m1 = X.x_orientation(fp, X.fr_point(center))
             e2, m2 = X.x_orientation(fp, pt)
+            if e1 == 0 or m1 < FRAGILE["orient"]:
+                # The reference point of _extend_hull ("guaranteed to lie strictly within the hull") is the code's own
+                # choice, not part of the input.  When it lies in the hyperplane of the facet although the facet is
+                # robustly away from the exact centroid of all vertices (which IS strictly inside the hull), the tiny
+                # margin says nothing about the input being near a tolerance: the decision is not counted as fragile,
+                # so the geometric clauses stay in force for the case.  (Never met on a valid triangulation with the
+                # centroid of the hull vertices as reference.)
+                es, ms = X.x_orientation(fp, cstar) if cstar is not None else (0, 0.0)
+                if es != 0 and ms >= ROBUST_SIDE:
+                    self.bad_reference_decisions += 1
+                    if self.bad_reference is None:
+                        self.bad_reference = (step, simp(face), tuple(float(x) for x in center))
+                    if not (e2 == 0 and m2 == 0.0):
+                        self._pred("orient", v2, e2, m2, f"orientation(face {face}, new point)", step)
+                    continue
             self._pred("orient", v1, e1, m1, f"orientation(face {face}, centre)", step)
             if e2 == 0 and m2 == 0.0:
                 # the new point lies exactly in the facet's hyperplane: the sign computed in floating
@@ -392,10 +507,49 @@ class Oracle:
                     what.append(f"vertex_to_simplices ({len(before[2])} -> {len(after[2])} entries)")
                 self.err("reject_unchanged", f"rejected insertion ({out}) changed the triangulation: " + ", ".join(what), step)
         try:
+            if out == "InsideHull" and rec is not None:
+                self.judge_inside_hull(before, rec, step)
             self._after_step(tri, before, after, out, ret, step, volume, rec)
         except Exception as e:  # noqa: BLE001  (a corrupted object can make the inspection itself fail)
             self.err("state_unreadable", f"inspecting the triangulation after add_point ({out}) raised "
                                          f"{type(e).__name__}: {str(e)[:80]}", step)
+
+    def judge_inside_hull(self, before, rec, step):
+        """C03: "after any sequence of point insertions (... or outside the current hull, with or without a hint simplex)
+        ... every point is a vertex of some simplex"; only a duplicate may be rejected.  An insertion refused with
+        'Candidate vertex is inside the hull' is compared with the exact convex hull of the vertices (computed from the
+        points alone, independent of the simplices and of every recorded predicate): refusing a point that is strictly
+        outside that hull by a robust margin is a failure.  Not judged in the regime of the documented sliver tolerance:
+        a candidate simplex over a visible facet was suppressed as almost flat in this call, or a point was placed 2e-8
+        outside a facet earlier (counted in `discarded`)."""
+        P = [X.fr_point(q) for q in before[0]]
+        outside, m, comb = X.x_outside_hull(P, X.fr_point(rec.point))
+        self.inside_hull_judged += 1
+        if not outside or m < ROBUST_SIDE:
+            return
+        self.exterior_rejected += 1
+        clause = "exterior_point_rejected"
+        self.raw.append((clause, step))
+        hint = "simplex=None" if rec.hint is None else f"simplex={tuple(rec.hint)}"
+        msg = (f"add_point({tuple(float(x) for x in rec.point)}, {hint}) was refused with 'Candidate vertex is inside the "
+               f"hull' although the point is strictly outside the convex hull of the {len(P)} vertices: it lies beyond the "
+               f"hull facet through vertices {tuple(comb)} (exact orientation margin {m:.3g}); "
+               f"{len(rec.orient)} hull facets were tested, {sum(1 for _f, _c, v1, v2, _s in rec.orient if v1 == -v2)} "
+               f"found visible")
+        if self.near_degenerate or any(fl for _s, fl in rec.flat):
+            self.would_fail_fragile += 1
+            k = clause + ("|after_gap" if self.near_degenerate else "|flat_candidate")
+            self.discarded[k] = self.discarded.get(k, 0) + 1
+            return
+        if self.hanging is not None:      # DESIGN 4.7, as for the geometric clauses
+            clause, msg = F31, (f"{msg}; at step {self.hanging[0]} bowyer_watson suppressed the flat simplex over the "
+                                f"cavity facet {self.hanging[1]} which is shared with a surviving simplex")
+        elif self.tolerated is not None:
+            clause, msg = F32, (f"{msg}; at step {self.tolerated[0]} point_in_cicumcircle accepted simplex "
+                                f"{self.tolerated[1]} whose circumsphere does not contain the point (within 1e-8)")
+        elif self.bad_reference is not None:
+            msg += self._bad_reference_note()
+        self.errors.append((clause, msg, step))
 
     def _after_step(self, tri, before, after, out, ret, step, volume, rec):
         if out == "Accepted" and rec is not None:
@@ -458,8 +612,9 @@ class Oracle:
 
 
 # ---------------------------------------------------------------------------
-def drive(d, init_pts, T, family, rng=None, nins=0, inserts=None, volume_every_step=True, off=None):
-    """Run the real Triangulation.  Either `inserts` (concrete replay) or rng/nins (generation)."""
+def drive(d, init_pts, T, family, rng=None, nins=0, inserts=None, volume_every_step=True, off=None, facing=()):
+    """Run the real Triangulation.  Either `inserts` (concrete replay) or rng/nins (generation; at the step numbers in
+    `facing` the point comes from choose_facing, with hint None or ())."""
     from adaptive.learner.triangulation import Triangulation
     tri = Triangulation([tuple(p) for p in init_pts])
     if not nondegenerate(tri):
@@ -478,8 +633,12 @@ def drive(d, init_pts, T, family, rng=None, nins=0, inserts=None, volume_every_s
             hint = None if hint is None else tuple(hint)
         else:
             try:
-                kind, p = choose_point(rng, tri, d, family, off)
-                hk, hint = choose_hint(rng, tri, p, kind)
+                if k in facing:
+                    kind, p = choose_facing(rng, tri, d)
+                    hk, hint = rng.choice([("none", None), ("empty", ())])
+                else:
+                    kind, p = choose_point(rng, tri, d, family, off)
+                    hk, hint = choose_hint(rng, tri, p, kind)
             except Exception as e:  # noqa: BLE001
                 orc.err("state_unreadable", f"reading the triangulation raised {type(e).__name__}: {str(e)[:80]}", k - 1)
                 break
@@ -671,6 +830,11 @@ def run(chk: Check) -> int:
         tot["pred_checked"] += orc.pred_checked
         tot["old_facets_checked"] = tot.get("old_facets_checked", 0) + getattr(orc, "old_facets_checked", 0)
         tot["fragile_decisions"] += orc.fragile
+        tot["inside_hull_rejections_compared_with_exact_hull"] = \
+            tot.get("inside_hull_rejections_compared_with_exact_hull", 0) + orc.inside_hull_judged
+        tot["robustly_exterior_points_rejected"] = tot.get("robustly_exterior_points_rejected", 0) + orc.exterior_rejected
+        tot["hull_reference_point_in_facet_hyperplane"] = \
+            tot.get("hull_reference_point_in_facet_hyperplane", 0) + orc.bad_reference_decisions
         tot["fragile_cases"] += bool(orc.fragile)
         tot["general_position_cases"] += bool(run_["general"])
         tot["would_fail_but_fragile"] += orc.would_fail_fragile
@@ -700,36 +864,73 @@ def run(chk: Check) -> int:
         r = drive(dsc["d"], dsc["init"], dsc["T"], dsc.get("family", "lattice"), inserts=dsc["inserts"])
         if r is not None:
             add(r, f.name)
-    k = 0
-    made = 0
-    while made < ncases:
-        rng = chk.rng("case", k)
-        k += 1
+
+    def generated(rng, origin, flat):
+        """one generated case; `flat`: an initial configuration whose first d+1 points are affinely dependent,
+        followed by exterior insertions facing the hull facet through them (see FLAT_FIRST / choose_facing)"""
         d = rng.choice([2, 2, 3, 3, 4])
-        family = rng.choice(["simplex", "simplex", "unit", "box", "lattice", "dyadic"])
-        if family == "box" and d == 4:
-            family = "simplex"
+        facing = ()
+        if flat:
+            family = rng.choice({2: ["grid", "flatfirst"], 3: ["boxprod", "grid", "flatfirst"],
+                                 4: ["boxprod", "flatfirst", "flatfirst"]}[d])
+        else:
+            family = rng.choice(["simplex", "simplex", "unit", "box", "lattice", "dyadic"])
+            if family == "box" and d == 4:
+                family = "simplex"
         T = transform_of(rng, d, family, chk.quick)
         off = offset_of(rng, d)
         init = initial_points(rng, d, family, off)
-        nmax = {2: 9, 3: 7, 4: 5}[d] if chk.quick else {2: 14, 3: 10, 4: 7}[d]
-        if family == "box":
-            nmax = max(2, nmax - 2 ** d // 2)
+        if flat:
+            nmax = {2: 6, 3: 5, 4: 3}[d] if chk.quick else {2: 10, 3: 8, 4: 5}[d]
+            nins = rng.randint(2, nmax)
+            first = 0 if rng.random() < 0.6 else rng.randint(1, min(2, nins - 1))
+            facing = {first} | {j for j in range(first + 1, nins) if rng.random() < 0.35}
+        else:
+            nmax = {2: 9, 3: 7, 4: 5}[d] if chk.quick else {2: 14, 3: 10, 4: 7}[d]
+            if family == "box":
+                nmax = max(2, nmax - 2 ** d // 2)
+            nins = rng.randint(2, nmax)
         try:
-            r = drive(d, init, T, family, rng=rng, nins=rng.randint(2, nmax), volume_every_step=(d < 4 or not chk.quick), off=off)
+            return drive(d, init, T, family, rng=rng, nins=nins, volume_every_step=(d < 4 or not chk.quick), off=off,
+                         facing=facing)
         except ValueError:
-            r = None    # scipy refused the initial points
+            return None     # scipy refused the initial points
         except Exception as e:  # noqa: BLE001  (fail closed, but keep going with the other cases)
             chk.fail("C03:internal_error", f"Triangulation dim={d} transform={T}: driving the case raised "
                                            f"{type(e).__name__}: {str(e)[:100]}",
-                     {"d": d, "init": [list(q) for q in init], "T": T, "family": family, "inserts": [], "seed_case": k - 1})
-            r = None
-        if r is None:
-            tot["degenerate_initial_skipped"] += 1
-            continue
-        made += 1
-        add(r, f"seed{chk.seed}/{k - 1}")
-    mism, legal, errors = chk.coq_cases("cases", PREAMBLE, "case", cases, "check", "is_legal", shard=40)
+                     {"d": d, "init": [list(q) for q in init], "T": T, "family": family, "inserts": [], "seed_case": origin})
+            return None
+
+    # a fixed share on top of the ordinary cases (their random streams are untouched): 48 of 368 quick, 400 of 3400 thorough
+    nflat = 48 if chk.quick else 400
+    for salt, want, flat in (("case", ncases, False), ("flatfirst", nflat, True)):
+        k = made = 0
+        while made < want:
+            origin = f"seed{chk.seed}/{k}" if not flat else f"seed{chk.seed}/flatfirst{k}"
+            r = generated(chk.rng(salt, k), origin, flat)
+            k += 1
+            if r is None:
+                tot["degenerate_initial_skipped"] += 1
+                continue
+            made += 1
+            if flat:
+                tot["flat_first_cases"] = tot.get("flat_first_cases", 0) + 1
+                tot["flat_first_exterior_insertions_accepted"] = tot.get("flat_first_exterior_insertions_accepted", 0) + sum(
+                    st["kind"].startswith(("facing", "beyond_face")) and st["path"] == "hull_extension" for st in r["steps"])
+            add(r, origin)
+    mism, legal, errors = chk.coq_cases("cases", PREAMBLE, "case", cases, "check", "is_legal", shard=40,
+                                        extra=["sum3 (map cavity_stats_of cases)"])
+    # inside Coq, on the recorded predicate outcomes: how many accepted insertions inside the hull started from a state
+    # with the hull property, for how many of them the premise of C03_closed_cavity_keeps_hull_property held (the
+    # reported cavity has a closed pseudo-manifold boundary) -- for those the theorem PROVES the hull property of the
+    # result -- and how many results have the hull property
+    cav = [0, 0, 0]
+    for parts in getattr(chk, "last_extra", []):
+        m = re.search(r"\((\d+),\s*(\d+),\s*(\d+)\)", " ".join(parts[0].split())) if parts else None
+        if m:
+            cav = [a + int(b) for a, b in zip(cav, m.groups())]
+    if cav[1] > cav[2]:
+        chk.broke("proof", "C03_closed_cavity_keeps_hull_property contradicted by an evaluation of the model", cav)
     for e in errors:
         chk.broke("correspondence", "Model/Tri.v cases could not be evaluated", e)
     for c, s in mism[:5]:
@@ -743,6 +944,9 @@ def run(chk: Check) -> int:
     chk.extra.update({"histograms": hist, "totals": tot, "fragile_decisions_by_predicate": fragile_kinds,
                       "smallest_robust_margin_by_predicate": min_margin, "fragility_thresholds": FRAGILE,
                       "verdicts_discarded_as_fragile_by_clause": discarded,
+                      "interior_insertions_from_hull_property_states_per_coq": cav[0],
+                      "of_these_closed_cavity_premise_held_so_theorem_applies": cav[1],
+                      "of_these_result_has_hull_property": cav[2],
                       "legal_histories_per_coq": legal, "cases_compared_in_coq": len(cases), "mismatches": len(mism),
                       "exhaustive": False,
                       "not_proved": "C03_tiling_partial: facet multiplicity <= 2 AT THE NEW VERTEX (facets without it: proved, "
@@ -758,7 +962,12 @@ def run(chk: Check) -> int:
              "midpoints, dyadic facet points, co-circular lattice points, far exterior points and duplicates, with no hint, a "
              "containing simplex, a wrong simplex or the empty hint, transform identity or diag with ratio <= 100, optionally "
              "times a small length scale (1e-6 .. 3e-8: circumradii far below 1 in the metric), whole point set optionally "
-             "translated by 10 .. 3e4 (4-D: <= 100) from the origin; "
+             "translated by 10 .. 3e4 (4-D: <= 100) from the origin; plus a fixed share (48 quick / 400 thorough cases) "
+             "constructed from MORE than dim+1 points whose first dim+1 points are affinely dependent (box corners in "
+             "itertools.product order, full lattice grids in lexicographic order, collinear / coplanar points first; axes "
+             "permuted) followed by exterior points beyond the hull facet through those first points and beyond other "
+             "faces of the bounding box (straight or oblique, simplex=None or simplex=()) mixed with the ordinary insertions; "
+             "an insertion refused as 'inside the hull' is compared with the exact convex hull of the points; "
              "non-trivial = at least one hull extension, one insertion deleting >= 2 simplices and one rejection; distinct by "
              "(points, hints, transform)",
         assumptions=["PARTIAL: the Coq theorems cover the combinatorial bookkeeping for all predicate outcomes, incl. facet "
